@@ -206,6 +206,46 @@ def nodense_worker(cfg):
     return out
 
 
+def resample_worker(cfg):
+    """sampler and refined sample agree with each other at the refined grid times — also after the horizon was edited and
+    the problem solved again on the same OCP object (a sampler requested for the same expression object must be rebuilt)"""
+    from ..common import setup_rockit_path
+    rockit = setup_rockit_path()
+    import io, contextlib
+    import casadi as ca
+    out = {}
+    try:
+        with contextlib.redirect_stdout(io.StringIO()), contextlib.redirect_stderr(io.StringIO()):
+            ocp = rockit.Ocp(t0=0.5, T=2)
+            x = ocp.state(2); u = ocp.control()
+            ocp.set_der(x, ca.vertcat(x[1], u - 0.5 * x[0] + 0.2 * ocp.t))
+            ocp.add_objective(ocp.integral(u * u) + ocp.at_tf(x[0] - 1) ** 2)
+            ocp.subject_to(ocp.at_t0(x) == ca.vertcat(0.2, -0.1))
+            grid = rockit.GeometricGrid(2) if cfg["grid"] == "geometric" else rockit.UniformGrid()
+            M_ = {"MS": rockit.MultipleShooting, "SS": rockit.SingleShooting}.get(cfg["method"])
+            ocp.method(M_(N=3, M=2, intg="rk", grid=grid) if M_ else rockit.DirectCollocation(N=3, M=2, degree=3, grid=grid))
+            ocp.solver("ipopt", {"ipopt.print_level": 0, "print_time": False, "ipopt.max_iter": 3})
+            e = x[0] * x[1] + u
+            devs = []
+            for step, edit in enumerate([None, "horizon", "constraint"]):
+                if edit == "horizon":
+                    ocp.set_t0(1.0); ocp.set_T(3.5)
+                elif edit == "constraint":
+                    ocp.subject_to(u <= 5)
+                try:
+                    sol = ocp.solve()
+                except Exception:
+                    sol = ocp.non_converged_solution
+                ts, es = sol.sample(e, grid="integrator", refine=3)
+                f = sol.sampler(e)
+                vals = np.array([float(np.array(f(t)).reshape(-1)[0]) for t in np.array(ts).reshape(-1)[:-1]])
+                devs.append(float(np.max(np.abs(vals - np.array(es).reshape(-1)[:-1]))))
+            out["devs"] = devs
+    except Exception as e_:
+        out["error"] = "%s: %s" % (type(e_).__name__, str(e_)[:300])
+    return out
+
+
 def run(tier="quick", seed=0, jobs=16):
     n = 100 if tier == "quick" else 1000
     cps = corpus() + gen_cases(seed, n, OPTS if tier == "quick" else dict(OPTS, N_max=5, M_max=4, deg_max=5), 2 if tier == "quick" else 4)
@@ -219,7 +259,17 @@ def run(tier="quick", seed=0, jobs=16):
         if "values" in r and any(not math.isfinite(a) for a in r["values"]):
             dis.append({"property": "C08", "case": cfg, "points": [], "finding_key": None,
                         "what": [{"what": "refined sampling without a dense output returned non-finite values instead of raising", "values": r["values"][:8]}]})
-    return {"evaluations": len(cps), "distinct_nontrivial": len(nontriv),
+    rcf = [{"method": m, "grid": g} for m in ("MS", "SS", "DC") for g in ("uniform", "geometric")]
+    with mp.get_context("fork").Pool(min(jobs, len(rcf))) as pool:
+        rs = pool.map(resample_worker, rcf, chunksize=1)
+    for cfg, r in zip(rcf, rs):
+        dist["sampler-after-edit/%s" % cfg["method"]] = dist.get("sampler-after-edit/%s" % cfg["method"], 0) + 1
+        if "error" in r or any(not (v < 1e-8) for v in r.get("devs", [])):
+            dis.append({"property": "C08", "case": dict(cfg, _resample=True), "points": [], "finding_key": None,
+                        "what": [{"what": "sampler(e) and sample(e, grid='integrator', refine=3) disagree at the refined grid times "
+                                          "[first solve, after set_t0/set_T and a second solve, after a further constraint and a third solve]",
+                                  "max deviations": r.get("devs"), "error": r.get("error")}]})
+    return {"evaluations": len(cps) + len(rcf), "distinct_nontrivial": len(nontriv),
             "rule": "random OCPs x {MS,SS with rk / expl_euler, DC degree 1..4(5) radau|legendre} x N,M x uniform and "
                     "non-uniform grids; sample(e, grid='integrator', refine=1..7) for 1-3 (vector) expressions of states, "
                     "quadrature states, algebraic states, controls, parameters, variables, t, T, t0; sampler(e)(gist, t) at "
@@ -231,6 +281,9 @@ def run(tier="quick", seed=0, jobs=16):
 
 def replay(path):
     d = json.load(open(path))
+    if d.get("case", {}).get("_resample"):
+        print(json.dumps(resample_worker(d["case"]), indent=1))
+        return 0
     if "what" in d.get("case", {}) and "intg" in d.get("case", {}):
         r = nodense_worker(d["case"])
         print(json.dumps(r, indent=1))
